@@ -100,6 +100,7 @@ class System:
 
     def do(self, a, st):
         n = a["name"]
+        self.ilog = []
         try:
             if n == "readns":
                 c = self.classes[a["c"]]
@@ -125,6 +126,15 @@ class System:
             elif n == "new":
                 kw = {k: self.val(v, self.kinds.get(k)) for k, v in (a["kw"].items() if isinstance(a["kw"], dict) else [])}
                 self.insts.append(self.classes[a["c"]](**kw))
+                if self.watch:
+                    # C03 across the class / instance boundary: a changes-only watcher of the instance runs iff the value the
+                    # instance shows changes, and is told the value shown before
+                    k = len(self.insts) - 1
+                    plain = [nm for nm in self.insts[k].param if nm != "name" and self.kinds.get(nm, "plain") in ("plain", "noperinst")]
+                    self.iwatched = getattr(self, "iwatched", {})
+                    self.iwatched[k] = set(plain)
+                    if plain:
+                        self.insts[k].param.watch(lambda *evs, k=k: self.ilog.extend((k, e.name, e.old, e.new) for e in evs), plain, onlychanged=True)
             elif n == "instset":
                 i = self.insts[a["i"] - 1]
                 v = getattr(i, a["n"]) if a["v"]["t"] == "same" else float(getattr(i, a["n"])) if a["v"]["t"] == "badeq" else self.val(a["v"], self.kinds.get(a["n"]))
@@ -197,6 +207,15 @@ class System:
         exp = st["obs"]
         editing = exp["editopen"]
         ids = {}
+        if self.watch and name == "instset" and st["res"] == "ok" and st["act"].get("chg") in ("yes", "no") and st["act"]["n"] in getattr(self, "iwatched", {}).get(st["act"]["i"] - 1, ()):
+            a = st["act"]
+            mine = [e for e in getattr(self, "ilog", []) if e[0] == a["i"] - 1 and e[1] == a["n"]]
+            if a["chg"] == "no" and mine:
+                return ("unchanged_notified", "instset %s=%r on instance %d does not change the value it shows (%r), yet its changes-only watcher ran with old=%r new=%r"
+                        % (a["n"], a["v"], a["i"], a["old"], mine[0][2], mine[0][3]))
+            if a["chg"] == "yes" and (len(mine) != 1 or mine[0][2] != a["old"]["v"]):
+                return ("change_notification", "instset %s=%r on instance %d changes the value it shows from %r: its changes-only watcher got %r (spec: one event, old = the value shown before)"
+                        % (a["n"], a["v"], a["i"], a["old"], [(e[2], e[3]) for e in mine]))
 
         def mask(p):
             objs = getattr(p, "_objects", None)
